@@ -119,6 +119,7 @@ type boundsFn struct {
 	byKey       map[string][]ssa.Value
 	stores      map[string][]*ssa.Store
 	noInline    bool                              // summary mode: calls stay atoms (the caller translates them)
+	phiDone     map[*ssa.Phi]bool
 	passed      map[*ssa.BasicBlock][]passedCheck // requirements of the block's own panic-capable instructions
 	valOverride map[ssa.Value]*aff                // value of buf.Len() calls when the remaining count is tracked
 	lenOverride map[ssa.Value]*aff                // exact length of buf.Next(n) results
@@ -624,6 +625,7 @@ func (bf *boundsFn) rangeOfAtom1(x interface{}) ival {
 			}
 		}
 	case *ssa.Phi:
+		bf.phiRelFacts(y)
 		lo, hi := int64(posInfI), int64(negInfI)
 		for _, e := range y.Edges {
 			ea := bf.affOf(e)
@@ -1263,4 +1265,46 @@ func (B *Bounds) condConstAff(caller *boundsFn, callee *ssa.Function, args []ssa
 	}
 	c := B.boolSym(caller, inner, cargs)
 	return affConst(k2).add(c.scale(k1-k2), 1), true
+}
+
+// phiRelFacts: for a loop variable that only moves one way (every back-edge
+// value is phi + d with d ≥ 0, or d ≤ 0) and has a single initial value, the
+// relation  phi ≥ init  (resp. phi ≤ init) holds wherever phi is defined.
+func (bf *boundsFn) phiRelFacts(phi *ssa.Phi) {
+	if bf.phiDone == nil {
+		bf.phiDone = map[*ssa.Phi]bool{}
+	}
+	if bf.phiDone[phi] {
+		return
+	}
+	bf.phiDone[phi] = true
+	var inits []aff
+	dir := 0
+	for _, e := range phi.Edges {
+		ea := bf.affOf(e)
+		if c, ok := ea.t[ssa.Value(phi)]; ok && c == 1 {
+			d := bf.rangeOfAff(ea.add(affAtom(ssa.Value(phi)), -1))
+			switch {
+			case d.lo >= 0 && dir >= 0:
+				dir = 1
+			case d.hi <= 0 && dir <= 0:
+				dir = -1
+			default:
+				return
+			}
+			continue
+		}
+		if _, self := ea.t[ssa.Value(phi)]; self {
+			return
+		}
+		inits = append(inits, ea)
+	}
+	if dir == 0 || len(inits) != 1 {
+		return
+	}
+	if dir == 1 {
+		bf.global = append(bf.global, affAtom(ssa.Value(phi)).add(inits[0], -1)) // phi - init ≥ 0
+	} else {
+		bf.global = append(bf.global, inits[0].add(affAtom(ssa.Value(phi)), -1)) // init - phi ≥ 0
+	}
 }
